@@ -402,6 +402,7 @@ type flagClass struct {
 
 func classifyFlag(t *MwTable, mp *MwPath, storeIdx int) flagClass {
 	ev := mp.Events[storeIdx]
+	sec := ev.Sec
 	v := ev.Val
 	switch {
 	case v.IsConst("false"):
@@ -414,6 +415,11 @@ func classifyFlag(t *MwTable, mp *MwPath, storeIdx int) flagClass {
 	for i := 0; i < storeIdx; i++ {
 		l := mp.Events[i]
 		if l.Kind != "load" || l.Base != ev.Base {
+			continue
+		}
+		if l.Sec != sec && !l.Fresh {
+			// a value read in another critical section says nothing about the
+			// state at the time of the store
 			continue
 		}
 		if l.Field == t.FlagFld && l.Val.Key() == v.Key() {
@@ -444,11 +450,34 @@ func classifyFlag(t *MwTable, mp *MwPath, storeIdx int) flagClass {
 	return flagClass{"?", v.Key()}
 }
 
+// flagEqualsParam: the path establishes that the flag as read in section sec
+// (and not overwritten since) equals the parameter b.
+func flagEqualsParam(t *MwTable, mp *MwPath, sec int, b string) bool {
+	for i, l := range mp.Events {
+		if l.Kind != "load" || l.Field != t.FlagFld || (sec >= 0 && l.Sec != sec) {
+			continue
+		}
+		over := false
+		for j := i + 1; j < len(mp.Events); j++ {
+			if mp.Events[j].Kind == "store" && mp.Events[j].Field == t.FlagFld {
+				over = true
+			}
+		}
+		if over {
+			continue
+		}
+		if mp.Val("bin:==("+l.Val.Key()+", "+b+")") == 1 || mp.Val("bin:==("+b+", "+l.Val.Key()+")") == 1 {
+			return true
+		}
+	}
+	return false
+}
+
 // ptrAtom: polarity of "current pointer == nil" on the path (+1 nil, -1 non-nil, 0 untested),
 // for a pointer loaded from the same Middleware and not replaced afterwards.
-func ptrAtom(t *MwTable, mp *MwPath) int {
+func ptrAtom(t *MwTable, mp *MwPath, sec int) int {
 	for i, l := range mp.Events {
-		if l.Kind != "load" || l.Field != t.PtrFld {
+		if l.Kind != "load" || l.Field != t.PtrFld || (sec >= 0 && l.Sec != sec) {
 			continue
 		}
 		replaced := false
@@ -545,89 +574,123 @@ func checkC09(ctx *Ctx) *Result {
 					}
 				}
 			}
-			// R9.1
-			good, detail := true, ""
-			switch fc.Kind {
-			case "F", "PTRNN":
-			case "NONE", "OLD":
-				if fresh && fc.Kind == "NONE" {
-					break // new Middleware: flag is the zero value
-				}
-				if ptrStore >= 0 && ptrKnown != 1 {
-					good, detail = false, "the flag is kept while the pointer is replaced by a value that may be nil"
-				}
-			case "B", "T":
-				if !(ptrStore < 0 && ptrAtom(t, mp) == -1) && !(ptrStore >= 0 && ptrKnown == 1) {
-					good, detail = false, "the flag may become true ("+fc.Text+") on a path that does not establish a non-nil configuration pointer"
-				}
-			default:
-				good, detail = false, "cannot relate the stored flag to the state: "+fc.Text
-			}
-			r.check(good, "R9.1", desc, "", detail, 1)
-			// R9.2
-			good, detail = true, ""
-			switch {
-			case ptrStore < 0 && flagStore < 0 && !isSetDebug:
-				// no state change on this path (e.g. rejection: R8.1)
-			case fresh:
-				if fc.Kind != "NONE" && fc.Kind != "F" {
-					good, detail = false, "a new middleware does not start with debug mode off"
-				}
-				if ptrStore >= 0 && ptrKnown != 1 {
-					good, detail = false, "creation stores something other than the builder's accepted configuration"
-				}
-			case isSetDebug:
-				b := mp.Val("param:" + mf.Fn.Params[1].Name())
-				if ptrStore >= 0 {
-					good, detail = false, "SetDebug replaces the configuration pointer"
-				}
-				pa := ptrAtom(t, mp)
-				// configured middleware: result must equal b
-				confOK := false
-				switch fc.Kind {
-				case "B":
-					confOK = true
-				case "PTRNN", "T":
-					confOK = b == 1
-				case "F":
-					confOK = b == -1
-				case "NONE", "OLD":
-					confOK = pa == 1 // only acceptable when the path is the passthrough one
-				}
-				// passthrough middleware: result must be off / unchanged
-				passOK := false
-				switch fc.Kind {
-				case "F", "NONE", "OLD", "PTRNN":
-					passOK = true
-				case "B", "T":
-					passOK = pa == -1 // path only taken when configured
-				}
-				if !confOK {
-					good, detail = false, fmt.Sprintf("on a configured middleware SetDebug(b) does not set debug mode to b (stores %s with b %+d)", fc.Text, b)
-				}
-				if !passOK {
-					good, detail = false, "on a passthrough middleware SetDebug is not a no-op (stores "+fc.Text+")"
-				}
-			case isReconf:
-				if ptrStore < 0 && flagStore < 0 {
-					break // rejection path: checked by R8.1
-				}
-				switch ptrKnown {
-				case 1:
-					if fc.Kind != "NONE" && fc.Kind != "OLD" {
-						good, detail = false, "a successful Reconfigure to a non-nil Config does not keep debug mode (stores "+fc.Text+")"
+			// the section whose reads justify the transition: that of the store;
+			// for a path without a store, any one section (the no-op's
+			// linearisation point)
+			var secs []int
+			if flagStore >= 0 {
+				secs = []int{mp.Events[flagStore].Sec}
+			} else if ptrStore >= 0 {
+				secs = []int{mp.Events[ptrStore].Sec}
+			} else {
+				seenSec := map[int]bool{}
+				for _, e := range mp.Events {
+					if e.Kind == "load" && !seenSec[e.Sec] {
+						seenSec[e.Sec] = true
+						secs = append(secs, e.Sec)
 					}
-				case -1:
-					if fc.Kind != "F" {
-						good, detail = false, "Reconfigure(nil) does not switch debug mode off (stores "+fc.Text+")"
+				}
+				if len(secs) == 0 {
+					secs = []int{-1}
+				}
+			}
+			eval := func(sec int) (bool, string, bool, string) {
+				// R9.1
+				good, detail := true, ""
+				switch fc.Kind {
+				case "F", "PTRNN":
+				case "NONE", "OLD":
+					if fresh && fc.Kind == "NONE" {
+						break // new Middleware: flag is the zero value
+					}
+					if ptrStore >= 0 && ptrKnown != 1 {
+						good, detail = false, "the flag is kept while the pointer is replaced by a value that may be nil"
+					}
+				case "B", "T":
+					if !(ptrStore < 0 && ptrAtom(t, mp, sec) == -1) && !(ptrStore >= 0 && ptrKnown == 1) {
+						good, detail = false, "the flag may become true ("+fc.Text+") on a path that does not establish a non-nil configuration pointer"
 					}
 				default:
-					good, detail = false, "Reconfigure stores a pointer whose nil-ness the path does not determine"
+					good, detail = false, "cannot relate the stored flag to the state: "+fc.Text
 				}
-			default:
-				good, detail = false, "unexpected writer of the Middleware's state"
+				g1, d1 := good, detail
+				// R9.2
+				good, detail = true, ""
+				switch {
+				case ptrStore < 0 && flagStore < 0 && !isSetDebug:
+					// no state change on this path (e.g. rejection: R8.1)
+				case fresh:
+					if fc.Kind != "NONE" && fc.Kind != "F" {
+						good, detail = false, "a new middleware does not start with debug mode off"
+					}
+					if ptrStore >= 0 && ptrKnown != 1 {
+						good, detail = false, "creation stores something other than the builder's accepted configuration"
+					}
+				case isSetDebug:
+					b := mp.Val("param:" + mf.Fn.Params[1].Name())
+					if ptrStore >= 0 {
+						good, detail = false, "SetDebug replaces the configuration pointer"
+					}
+					pa := ptrAtom(t, mp, sec)
+					// configured middleware: result must equal b
+					confOK := false
+					switch fc.Kind {
+					case "B":
+						confOK = true
+					case "PTRNN", "T":
+						confOK = b == 1
+					case "F":
+						confOK = b == -1
+					case "NONE", "OLD":
+						// unchanged: acceptable on the passthrough path, or when the
+						// flag already equals b
+						confOK = pa == 1 || flagEqualsParam(t, mp, sec, "param:"+mf.Fn.Params[1].Name())
+					}
+					// passthrough middleware: result must be off / unchanged
+					passOK := false
+					switch fc.Kind {
+					case "F", "NONE", "OLD", "PTRNN":
+						passOK = true
+					case "B", "T":
+						passOK = pa == -1 // path only taken when configured
+					}
+					if !confOK {
+						good, detail = false, fmt.Sprintf("on a configured middleware SetDebug(b) does not set debug mode to b (stores %s with b %+d)", fc.Text, b)
+					}
+					if !passOK {
+						good, detail = false, "on a passthrough middleware SetDebug is not a no-op (stores "+fc.Text+")"
+					}
+				case isReconf:
+					if ptrStore < 0 && flagStore < 0 {
+						break // rejection path: checked by R8.1
+					}
+					switch ptrKnown {
+					case 1:
+						if fc.Kind != "NONE" && fc.Kind != "OLD" {
+							good, detail = false, "a successful Reconfigure to a non-nil Config does not keep debug mode (stores "+fc.Text+")"
+						}
+					case -1:
+						if fc.Kind != "F" {
+							good, detail = false, "Reconfigure(nil) does not switch debug mode off (stores "+fc.Text+")"
+						}
+					default:
+						good, detail = false, "Reconfigure stores a pointer whose nil-ness the path does not determine"
+					}
+				default:
+					good, detail = false, "unexpected writer of the Middleware's state"
+				}
+				return g1, d1, good, detail
 			}
-			r.check(good, "R9.2", desc, "", detail, 1)
+			var g1, g2 bool
+			var d1, d2 string
+			for _, sec := range secs {
+				g1, d1, g2, d2 = eval(sec)
+				if g1 && g2 {
+					break
+				}
+			}
+			r.check(g1, "R9.1", desc, "", d1, 1)
+			r.check(g2, "R9.2", desc, "", d2, 1)
 			r.sample(map[string]any{"writer": name, "path": mp.AtomString(), "flag": fc.Text, "pointer_replaced": ptrStore >= 0, "pointer_known": ptrKnown})
 		}
 	}
